@@ -123,6 +123,22 @@ fn main() {
         .sum();
     println!("selftest iso-large: shapes={} failures={} ({:.1}s)", big.len(), badbig, tb.elapsed().as_secs_f64());
     fail |= badbig > 0;
+    // 2c. the un-quotiented presentation `exploded` denotes the diagram it was made from
+    let ux = Spec::open(3, 2, 2, 2, 2, 2, 2);
+    let ue = Spec { e_max: 1, ..ux.clone() }.universe();
+    let badx: u64 = (0..ue.count())
+        .into_par_iter()
+        .map(|i| {
+            let p = ue.get_open(i);
+            let l = PLax::exploded(&p);
+            match l.strictify() {
+                Some(q) if iso(&p, &q) && l.open.nodes.len() >= p.nodes.len() => 0,
+                _ => 1,
+            }
+        })
+        .sum();
+    println!("selftest exploded-presentation: diagrams={} failures={}", ue.count(), badx);
+    fail |= badx > 0;
     // 3. non-isomorphism is detected: changing one incidence or one interface entry of a diagram
     //    whose nodes are all distinguishable must break isomorphism
     let x: POpen<u8, u8> = POpen { nodes: vec![0, 1, 2], edges: vec![PEdge { label: 0, src: vec![0, 1], tgt: vec![2] }], s: vec![0, 1], t: vec![2] };
